@@ -1,6 +1,6 @@
 (* ValueLaws.v — further laws of the operator model (Value.v): logic, flip, not, shift counts.
    Proofs only; the statements a reader relies on are restated in PropC11.v. *)
-Require Import Calc.Base Calc.Bytecode Calc.Value.
+Require Import Calc.Base Calc.Bytecode Calc.Value Calc.ValueProofs.
 From Coq Require Import ZArith Bool Lia.
 Open Scope Z_scope.
 
@@ -110,4 +110,83 @@ Proof.
   match goal with |- context [(?a + two63) mod two64] =>
     pose proof (Z.mod_pos_bound (a + two63) two64 ltac:(unfold two64; lia)) as Hb end.
   apply andb_true_intro; split; apply Z.leb_le; unfold two63, two64 in *; lia.
+Qed.
+
+(* ---- + on strings and arrays is associative with the empty value as unit; + and * on integers commute ---- *)
+From Coq Require Import String List.
+
+Lemma sappend_assoc (a b c : string) : ((a +++ b) +++ c) = (a +++ (b +++ c)).
+Proof. induction a as [|ch a IH]; cbn [String.append]; [reflexivity|rewrite IH; reflexivity]. Qed.
+
+Lemma sappend_empty_r (a : string) : (a +++ EmptyString) = a.
+Proof. induction a as [|ch a IH]; cbn [String.append]; [reflexivity|rewrite IH; reflexivity]. Qed.
+
+Lemma concat_assoc a b c ab bc :
+  sliceable a -> Arith ADD a b = Ok ab -> Arith ADD b c = Ok bc -> Arith ADD ab c = Arith ADD a bc.
+Proof.
+  intros Hs H1 H2. destruct a; try (exfalso; exact Hs); destruct b; cbn [Arith] in H1; try discriminate H1;
+    destruct c; cbn [Arith] in H2; try discriminate H2.
+  all: change (ADD =? ADD) with true in *; cbv iota in *; inversion H1; subst; inversion H2; subst; cbn [Arith];
+       change (ADD =? ADD) with true; cbv iota.
+  - rewrite sappend_assoc. reflexivity.
+  - rewrite <- app_assoc. reflexivity.
+Qed.
+
+Lemma concat_unit :
+  (forall s, Arith ADD (VStr s) (VStr EmptyString) = Ok (VStr s) /\ Arith ADD (VStr EmptyString) (VStr s) = Ok (VStr s)) /\
+  (forall l, Arith ADD (VArr l) (VArr nil) = Ok (VArr l) /\ Arith ADD (VArr nil) (VArr l) = Ok (VArr l)).
+Proof.
+  split; intros x; cbn [Arith]; change (ADD =? ADD) with true; cbv iota.
+  - rewrite sappend_empty_r. split; reflexivity.
+  - rewrite app_nil_r. split; reflexivity.
+Qed.
+
+Lemma int_add_mul_comm x y :
+  Arith ADD (VInt x) (VInt y) = Arith ADD (VInt y) (VInt x) /\ Arith MUL (VInt x) (VInt y) = Arith MUL (VInt y) (VInt x).
+Proof.
+  cbn [Arith]. change (ADD =? DIV) with false. change (MUL =? DIV) with false. cbn [andb].
+  unfold int_arith. change (ADD =? ADD) with true. change (MUL =? ADD) with false. change (MUL =? SUB) with false.
+  change (MUL =? MUL) with true. cbv iota. rewrite (Z.add_comm x y), (Z.mul_comm x y). split; reflexivity.
+Qed.
+
+(* integer + is associative through the 64-bit wrap-around, so is * *)
+Lemma wrap64_mod a b : a mod two64 = b mod two64 -> wrap64 a = wrap64 b.
+Proof.
+  intros H. unfold wrap64. f_equal.
+  rewrite (Z.add_mod a two63 two64), (Z.add_mod b two63 two64), H by (unfold two64; lia). reflexivity.
+Qed.
+
+Lemma wrap64_mod_id a : (wrap64 a) mod two64 = a mod two64.
+Proof.
+  unfold wrap64.
+  rewrite Zminus_mod, Zmod_mod, <- Zminus_mod. f_equal. lia.
+Qed.
+
+Lemma int_add_assoc x y z :
+  int_arith ADD (int_arith ADD x y) z = int_arith ADD x (int_arith ADD y z).
+Proof.
+  unfold int_arith. change (ADD =? ADD) with true. cbv iota. apply wrap64_mod.
+  rewrite (Z.add_mod (wrap64 (x + y)) z), wrap64_mod_id, <- Z.add_mod by (unfold two64; lia).
+  rewrite (Z.add_mod x (wrap64 (y + z))), wrap64_mod_id, <- Z.add_mod by (unfold two64; lia).
+  f_equal. lia.
+Qed.
+
+Lemma int_mul_assoc x y z :
+  int_arith MUL (int_arith MUL x y) z = int_arith MUL x (int_arith MUL y z).
+Proof.
+  unfold int_arith. change (MUL =? ADD) with false. change (MUL =? SUB) with false. change (MUL =? MUL) with true.
+  cbv iota. apply wrap64_mod.
+  rewrite (Z.mul_mod (wrap64 (x * y)) z), wrap64_mod_id, <- Z.mul_mod by (unfold two64; lia).
+  rewrite (Z.mul_mod x (wrap64 (y * z))), wrap64_mod_id, <- Z.mul_mod by (unfold two64; lia).
+  f_equal. lia.
+Qed.
+
+Lemma int_sub_self_add_zero x : in_int64 x = true -> int_arith SUB x x = 0 /\ int_arith ADD x 0 = x.
+Proof.
+  intros Hr. unfold in_int64, min_int, max_int in Hr. apply andb_prop in Hr. destruct Hr as [H1 H2].
+  apply Z.leb_le in H1. apply Z.leb_le in H2.
+  unfold int_arith. change (SUB =? ADD) with false. change (SUB =? SUB) with true. change (ADD =? ADD) with true. cbv iota.
+  rewrite Z.sub_diag, Z.add_0_r. unfold wrap64, two63, two64 in *. split.
+  - reflexivity.
+  - rewrite Z.mod_small; lia.
 Qed.
